@@ -181,6 +181,16 @@ Theorem count_matrix_rows_sum_to_sequence_count :
     sumN (fun k => nth k (nth j (st_motif st) []) 0%N) (cK c) = st_count st.
 Proof. intros c st j Hwf Hi Hj. exact (motif_row_sum c st j Hwf Hi Hj). Qed.
 
+(* the public accessors: active_sequences() lists exactly the active indices, there are
+   sequence_count() of them, active_starts() never indexes out of range and returns their starts *)
+Theorem accessors_agree_with_state :
+  forall c st, CInv c st ->
+    (forall i, In i (active_sequences st) <->
+               (i < length (cData c))%nat /\ nth i (st_active st) false = true) /\
+    N.of_nat (length (active_sequences st)) = st_count st /\
+    active_starts st = Ok (map (fun i => nth i (st_starts st) O) (active_sequences st)).
+Proof. exact accessors_spec. Qed.
+
 (* ------------------------------------------------------------------ modes, bookkeeping *)
 
 (* Oops: every sequence stays active, every call yields an iteration, never converges *)
@@ -190,6 +200,44 @@ Theorem oops_all_active_never_converges :
     Forall (fun x => st_conv (fst x) = false /\ snd x <> None /\
                      forall i, (i < length (cData c))%nat -> nth i (st_active (fst x)) false = true) t.
 Proof. intros c st chs t Hwf Hm Hinv Hc Hr. exact (run_oops c chs Hwf Hm st t Hinv Hc Hr). Qed.
+
+(* inertia / patience / last_inclusion bookkeeping of one call of next() *)
+Theorem next_bookkeeping_spec :
+  forall c st ch st' it,
+    WF c -> Inv c st -> next c st ch = Ok (st', Some it) ->
+    (cMode c = Zoops -> (st_step st < cInertia c)%N -> In (it_z it) (cSeed c)) /\
+    nth (it_z it) (st_active st') false =
+      (if zoops_trial c st (it_z it) then ch_accept ch else true) /\
+    st_last st' = (if (zoops_trial c st (it_z it) && ch_accept ch)%bool then st_step st else st_last st) /\
+    st_conv st' = (zoops_trial c st (it_z it) && (cPatience c <? st_step st - st_last st')%N)%bool.
+Proof. exact next_bookkeeping. Qed.
+
+(* Zoops, from construction on: until the step counter passes the inertia only seed
+   sequences are active (only seeds are held out, so nothing else can be recruited) *)
+Theorem inertia_only_seeds_active :
+  forall K W data wraps initial inertia patience starts0 seeds0 chs c st0 t,
+    data_ok K W data ->
+    Forall (fun wr => (W <= wr)%nat) wraps ->
+    starts_in_range W data starts0 = true ->
+    seeds_ok (length data) initial seeds0 ->
+    new_ K W data wraps Zoops initial inertia patience starts0 seeds0 = Ok (c, st0) ->
+    run c st0 chs = Ok t ->
+    Forall (fun x => (st_step (fst x) <= inertia)%N ->
+                     forall i, nth i (st_active (fst x)) false = true -> In i seeds0) t.
+Proof.
+  intros K W data wraps initial inertia patience starts0 seeds0 chs c st0 t Hd Hw Hr Hs En Er.
+  destruct (new_ok K W data wraps Zoops initial inertia patience starts0 seeds0 Hd Hw Hr (fun _ => Hs))
+    as [c' [st0' [En' [Hwf [Hinv [Hc [_ [_ [_ Hact]]]]]]]]].
+  assert (Heq : c' = c /\ st0' = st0) by (rewrite En in En'; inversion En'; auto).
+  destruct Heq as [-> ->]. clear En'.
+  assert (HJ : inertia_inv c st0).
+  { intros _ _ i Hi. rewrite Hact in Hi. cbn [init_active] in Hi.
+    apply existsb_exists in Hi. destruct Hi as [x [Hx Hxe]]. apply Nat.eqb_eq in Hxe. subst x.
+    rewrite Hc. exact Hx. }
+  pose proof (run_inertia_inv c chs Hwf st0 t Hinv HJ Er) as H.
+  eapply Forall_impl; [|exact H]. intros x Hx Hle. unfold inertia_inv in Hx.
+  rewrite Hc in Hx. cbn [cMode cInertia cSeed] in Hx. apply Hx; auto.
+Qed.
 
 (* the same through the public constructors: any sequence of SamplerBuilder setters followed
    by sample(), and Sampler::new (oops, no seeds) *)
@@ -296,6 +344,35 @@ Check ((fun _ _ _ _ _ => eq_refl) : forall freq K W data r,
    r_cm r = recompute_motif K W data (r_active r) (r_starts r) /\
    r_bg r = expected_bg_bits freq K W data (r_active r) (r_starts r) /\
    r_n r = count_true (r_active r))).
+Check ((fun _ _ _ _ _ _ => eq_refl) : forall K W data act starts it,
+  iteration_holds K W data act starts it =
+  ((it_z it < length data)%nat /\
+   it_counts it = recompute_motif K W data (upd (it_z it) false act) starts /\
+   it_n it = count_true (upd (it_z it) false act))).
+Check ((fun _ _ _ _ _ _ _ => eq_refl) : forall freq K W data idx prev o,
+  step_holds freq K W data idx prev o =
+  (state_holds freq K W data (o_rep o) /\
+   iteration_holds K W data (r_active prev) (r_starts prev) (o_it o) /\
+   iteration_holds K W data (r_active (o_rep o)) (r_starts (o_rep o)) (o_it o) /\
+   it_step (o_it o) = idx)).
+Check ((fun _ _ _ _ _ _ => eq_refl) : forall freq K W data init os,
+  Holds_C16 freq K W data init os =
+  (state_holds freq K W data init /\ steps_hold freq K W data 0%N init os)).
+Check ((fun _ _ _ => eq_refl) : forall K W data,
+  data_ok K W data =
+  (Forall (Forall (fun a => (a < K)%nat)) data /\
+   Forall (fun s => (W <= length s)%nat) data /\
+   (N.of_nat (length data) <= u32_max)%N /\
+   (total_len data <= usize_max)%N)).
+Check ((fun _ _ _ => eq_refl) : forall n initial seeds0,
+  seeds_ok n initial seeds0 =
+  (NoDup seeds0 /\ Forall (fun i => (i < n)%nat) seeds0 /\
+   N.of_nat (length seeds0) = N.min initial (N.of_nat n))).
+Check ((fun _ _ _ _ _ => eq_refl) : forall K W data act starts,
+  recompute_motif K W data act starts =
+  map (fun j => map (fun k => spec_motif_cell data act starts j k) (seq 0 K)) (seq 0 W)) .
+Check ((fun _ _ _ _ _ => eq_refl) : forall K W data act starts,
+  recompute_bg K W data act starts = map (spec_bg_cell W data act starts) (seq 0 K)).
 Check ((fun _ _ _ _ _ => eq_refl) : forall data act starts j k,
   spec_motif_cell data act starts j k =
   sumN (fun i => if nth i act false then win_cell (nth i data []) (nth i starts O) j k else 0%N) (length data)).
